@@ -23,8 +23,10 @@ CLAIMS = {
                  'processes, steps, topology entries, ports and initial-state '
                  'keys',
 }
-GOALS = {'quick': ['two processes invoked at one instant'],
-         'thorough': ['two processes invoked at one instant']}
+GOALS = {'quick': ['two processes invoked at one instant',
+                   'structural and ordinary update in one dictionary'],
+         'thorough': ['two processes invoked at one instant',
+                      'structural and ordinary update in one dictionary']}
 STUBS = ['pure stub processes: accumulate a symbolic delta (indexed by process '
          'name and call index) into a shared z and set own_<name> := z read; '
          'user updater counting applications; recording emitter']
@@ -106,6 +108,98 @@ class Dep(Step):
         return {'s': {'dep': states['s']['seen_st0'] + 1}}
 
 
+class Spawner(Process):
+    """adds a member to `pool` (structural) and counts in `ledger` with one
+    update; the order of its two ports is a parameter"""
+
+    def ports_schema(self):
+        items = [('pool', {'*': {'v': {'_default': 0, '_emit': True}}}),
+                 ('ledger', {'spawned': {'_default': 0, '_emit': True}})]
+        if self.parameters['reverse_ports']:
+            items.reverse()
+        return dict(items)
+
+    def calculate_timestep(self, states):
+        return CTX['ts']['spawner']
+
+    def next_update(self, timestep, states):
+        n = len(states['pool'])
+        items = [('pool', {'_add': [{'key': 'm%d' % n, 'state': {'v': n}}]}),
+                 ('ledger', {'spawned': 1})]
+        if self.parameters['reverse_ports']:
+            items.reverse()
+        return dict(items)
+
+
+class Census(Process):
+    """reads the pool through a glob port and reports how many it saw"""
+
+    def ports_schema(self):
+        return {'pool': {'*': {'v': {'_default': 0}}},
+                'report': {'seen': {'_default': 0, '_updater': 'set',
+                                    '_emit': True}}}
+
+    def calculate_timestep(self, states):
+        return CTX['ts']['census']
+
+    def next_update(self, timestep, states):
+        CTX['census'].append(dict(g=CTX['engine'].global_time,
+                                  seen=sorted(states['pool']),
+                                  nrows=len(stubs.SINK['rows'])))
+        return {'report': {'seen': len(states['pool'])}}
+
+
+def body_spawner(ctx, cfg):
+    """A structural update and an ordinary update in ONE update dictionary:
+    whatever the listing order of ports and processes, a process started at an
+    instant sees the pool as committed (= as in the last emitted row)."""
+    CTX.clear()
+    CTX['ctx'] = ctx
+    CTX['ts'] = {'spawner': ctx.int('ts', 1, 2), 'census': ctx.int('ts', 1, 2)}
+    T = ctx.int('T', 2, 4)
+    runs = []
+    for reverse_ports in (False, True):
+        for census_first in (False, True):
+            CTX['census'] = []
+            sink = stubs.reset_sink()
+            sp = Spawner({'reverse_ports': reverse_ports})
+            ce = Census({})
+            procs = [('census', ce), ('spawner', sp)] if census_first \
+                else [('spawner', sp), ('census', ce)]
+            topo = {'spawner': {'pool': ('pool',), 'ledger': ('ledger',)},
+                    'census': {'pool': ('pool',), 'report': ('report',)}}
+            e = Engine(processes=dict(procs), topology=topo,
+                       initial_state={'pool': {'m0': {'v': 0}}},
+                       emitter={'type': 'vsym_rec'}, display_info=False)
+            CTX['engine'] = e
+            e.update(T)
+            runs.append(dict(rows=[dict(r) for r in sink['rows']],
+                             census=CTX['census'], rp=reverse_ports,
+                             cf=census_first))
+    committed = []
+    for r in runs:
+        for c in r['census']:
+            row = r['rows'][c['nrows'] - 1]
+            committed.append(sorted(row.get('pool', {})) == c['seen'])
+    ctx.claim('C04.committed', all(committed), sig='committed-structural',
+              info=lambda: dict(runs=[(r['rp'], r['cf'], r['census'],
+                                       r['rows']) for r in runs]))
+    base = runs[0]['rows']
+    eq = []
+    for r in runs[1:]:
+        if len(r['rows']) != len(base):
+            eq.append(False)
+            continue
+        for a, b in zip(base, r['rows']):
+            la, lb = stubs.leaves(a), stubs.leaves(b)
+            eq.append(set(la) == set(lb))
+            eq += [EQ(la[k], lb[k]) for k in la if k in lb]
+    ctx.claim('C04.order', AND(eq), sig='order-structural',
+              info=lambda: dict(runs=[(r['rp'], r['cf'], r['rows'])
+                                      for r in runs]))
+    ctx.goal('structural and ordinary update in one dictionary')
+
+
 def jobs(tier):
     q = tier == 'quick'
     return [
@@ -114,6 +208,7 @@ def jobs(tier):
              crosscheck=0 if q else 20),
         dict(name='N2-steps2-perms', N=2, steps=2, B=3, T=3 if q else 5,
              budget_s=100 if q else 1200, crosscheck=0 if q else 20),
+        dict(name='spawner', part='spawner', budget_s=100),
     ] + ([] if q else [
         dict(name='N3-steps2-perms', N=3, steps=2, B=3, T=4, budget_s=1200)])
 
@@ -147,6 +242,8 @@ def run_once(ctx, cfg, order, sorder, init_keys, reverse):
 
 
 def body(ctx, cfg):
+    if cfg.get('part') == 'spawner':
+        return body_spawner(ctx, cfg)
     names = ['p%d' % i for i in range(cfg['N'])]
     snames = ['st%d' % i for i in range(cfg['steps'])] + (
         ['dep'] if cfg['steps'] else [])
